@@ -187,6 +187,10 @@ class AppCfgMgr:
                             instance_name)
             return
 
+        elif self._is_done(instance_name):
+            _LOGGER.warning('Event on already finished %r', instance_name)
+            return
+
         elif self._configure(instance_name):
             self._refresh_supervisor()
 
@@ -417,6 +421,29 @@ class AppCfgMgr:
                 pass
             else:
                 raise
+
+    def _is_done(self, instance_name):
+        """Check if the container of this very cache entry was configured
+        before and has finished or was handed to the cleanup service since.
+        """
+        event_file = os.path.join(self.tm_env.cache_dir, instance_name)
+        try:
+            container_name = appcfg.eventfile_unique_name(event_file)
+        except OSError:
+            # The cache entry is gone.
+            return False
+
+        data_dir = os.path.join(self.tm_env.apps_dir, container_name, 'data')
+        if not os.path.exists(os.path.dirname(data_dir)):
+            return False
+
+        return (
+            any(
+                os.path.exists(os.path.join(data_dir, cleanup_file))
+                for cleanup_file in ['exitinfo', 'aborted', 'oom']
+            ) or
+            self._in_cleanup(instance_name, container_name)
+        )
 
     def _in_cleanup(self, instance_name, container_name):
         """Check if a container was already handed to the cleanup service.
